@@ -219,6 +219,7 @@ func runHNSWHistory(r *rand.Rand, p hnswParams, o hnswOpts, t *Trace) *Case {
 				t.Stat("hnsw.remove_ok")
 			}
 		case x < 64: // flush
+			dump() // the election is judged on the graph as it is now
 			idx.Flush()
 			st := comet.VerifHNSWSnapshot(idx)
 			ops = append(ops, func(c *Case) { c.N(3).U(uint64(st.EntryPoint)) })
@@ -232,6 +233,10 @@ func runHNSWHistory(r *rand.Rand, p hnswParams, o hnswOpts, t *Trace) *Case {
 			removed = map[uint32]bool{}
 			t.Stat("hnsw.flush")
 		default: // search
+			// the graph is dumped right before every search: whether a miss is the listed reachability
+			// finding is decided on the implementation's own graph at that instant (after a tie in an
+			// unstable sort the model's graph may have drifted until the next dump)
+			dump()
 			nq := 1
 			y := r.Intn(10)
 			if y == 8 {
